@@ -202,6 +202,36 @@ func init() {
 		}
 		return nil, r.rawStore(st, fp, a[1])
 	}
+	// sync.Mutex: field 0 (state) is the lock word; Lock blocks while it is non-zero
+	intrinsics["(*sync.Mutex).Lock"] = func(r *Run, st *State, fn *ssa.Function, a []Value, pos token.Pos) ([]Value, error) {
+		p, ok := a[0].(Ptr)
+		if !ok || p.ID == 0 {
+			return nil, r.startPanic(st, "nil pointer dereference (Mutex.Lock)", pos)
+		}
+		w := p.sub(0)
+		free := func(o *smt.Term) *smt.Term { return smt.Eq(o, smt.BV(0, 32)) }
+		set := func(o *smt.Term) (*smt.Term, *smt.Term) { return smt.BV(1, 32), smt.True }
+		if po, ok := st.Hook.(*PO); ok && st.Hook != nil {
+			if handled, err := po.AwaitRMW(st, w, free, set, pos); handled || err != nil {
+				return nil, err
+			}
+		}
+		ov, err := r.rawLoad(st, w, nil)
+		if err != nil {
+			return nil, err
+		}
+		if t, ok := ov.(*smt.Term); ok && t.IsConst() && t.C != 0 {
+			return nil, pathEnd{EndBlocked, "Mutex.Lock on a locked mutex at " + st.pos(pos)}
+		}
+		return nil, r.rawStore(st, w, smt.BV(1, 32))
+	}
+	intrinsics["(*sync.Mutex).Unlock"] = func(r *Run, st *State, fn *ssa.Function, a []Value, pos token.Pos) ([]Value, error) {
+		p, ok := a[0].(Ptr)
+		if !ok || p.ID == 0 {
+			return nil, r.startPanic(st, "nil pointer dereference (Mutex.Unlock)", pos)
+		}
+		return nil, r.atomicStore(st, p.sub(0), smt.BV(0, 32), pos)
+	}
 	noop := func(r *Run, st *State, fn *ssa.Function, a []Value, pos token.Pos) ([]Value, error) {
 		return nil, nil
 	}
@@ -307,9 +337,44 @@ func (r *Run) verifIntrinsic(st *State, fn *ssa.Function, a []Value, pos token.P
 		if err != nil {
 			return nil, true, unknownf("assert on non-scalar (%s): %v", strLit(a[1]), err)
 		}
+		if po, ok := st.Hook.(*PO); ok && st.Hook != nil {
+			lbl := strLit(a[1])
+			if r.Prop != "" && len(lbl) > 4 && lbl[0] == 'C' && lbl[3] == '/' && lbl[:3] != r.Prop {
+				return nil, true, nil
+			}
+			ev := po.evFor(st)
+			ev.Kind = "assert"
+			ev.Label = lbl
+			ev.Cond = c
+			return nil, true, nil
+		}
 		r.assert(st, c, strLit(a[1]), pos)
 		return nil, true, nil
+	case "verifThread", "verifFinal":
+		// (name string, f func()) : register a model thread; it starts when the harness returns
+		fv, ok := a[1].(Func)
+		if !ok || fv.Fn == nil {
+			return nil, true, unknownf("verifThread needs a function")
+		}
+		st.POThreads = append(st.POThreads, POThreadSpec{Name: strLit(a[0]), Fn: fv, Final: name == "verifFinal"})
+		return nil, true, nil
+	case "verifSpawn":
+		fv, ok := a[0].(Func)
+		if !ok || fv.Fn == nil {
+			return nil, true, unknownf("verifSpawn needs a function")
+		}
+		if po, ok := st.Hook.(*PO); ok && st.Hook != nil {
+			return nil, true, po.spawn(st, fv, nil, pos)
+		}
+		st.Pending = append(st.Pending, pendingGo{Fn: fv})
+		return nil, true, nil
 	case "verifReach":
+		if po, ok := st.Hook.(*PO); ok && st.Hook != nil {
+			ev := po.evFor(st)
+			ev.Kind = "reach"
+			ev.Label = strLit(a[0])
+			return nil, true, nil
+		}
 		lbl := strLit(a[0])
 		if !r.ReachHit[lbl] {
 			res, m := r.model(st)
@@ -322,6 +387,12 @@ func (r *Run) verifIntrinsic(st *State, fn *ssa.Function, a []Value, pos token.P
 		st.Cover[lbl] = true
 		return nil, true, nil
 	case "verifLog":
+		if po, ok := st.Hook.(*PO); ok && st.Hook != nil {
+			pe := po.evFor(st)
+			pe.Kind = "log"
+			pe.Label = strLit(a[0])
+			return nil, true, nil
+		}
 		ev := LogEv{Tag: strLit(a[0]), Pos: st.pos(pos)}
 		if g, ok := a[1].(GSlice); ok {
 			for i := 0; i < g.Len; i++ {
